@@ -13,8 +13,9 @@
       Wait    AWaitQ: WQWait + WReadErr
       Close   ACSend, ACAdd, ACRecv, ACCompress (WCall FWriteBlock), ACCloseQ (WSetClosed; WClose WQueue),
               ACWg (WGWait; WReadErr; WIf [WUnderlying])
-      emitter ERange: WRange WQueue; EFlushWait: WRecv WFlush; EWrite/EDone: writeOK
-      writeOK error check, empty-buffer return (no WQDone), WUnderlying, WQDone, error check; deferred WSend WWaiting
+      emitter ERange: WRange WQueue (no break: the loop drains the queue also after a failure); EFlushWait: WRecv WFlush
+      writeOK EWrite: c.err check, sticky-error check (WReadErr), empty-buffer return, WUnderlying, error check;
+              EDone: deferred WQDone (on every path), then deferred WSend WWaiting
       writeBlock deferred WSend WFlush (stage SFlushed) on every path. *)
 From Coq Require Import ZArith List Bool.
 From Hts Require Import Base.Prim Generated.
@@ -23,10 +24,10 @@ Import ListNotations.
 Definition expected_skeleton : list (list wr_ev) :=
   [ (* NewWriterLevel *)
     [WIf [WReturn] []; WLoop [WSend WWaiting]; WRecv WWaiting; WGAdd;
-     WGo [WDefer [WGDone]; WRange WQueue [WRecv WFlush; WCall FWriteOK; WIf [WBreak] []]]; WReturn];
+     WGo [WDefer [WGDone]; WRange WQueue [WRecv WFlush; WCall FWriteOK]]; WReturn];
     (* writeOK *)
-    [WDefer [WSend WWaiting]; WIf [WCall FSetErr; WReturn] []; WIf [WReturn] []; WUnderlying; WQDone;
-     WIf [WCall FSetErr; WReturn] []; WReturn];
+    [WDefer [WSend WWaiting]; WDefer [WQDone]; WIf [WCall FSetErr; WReturn] []; WReadErr; WIf [WReturn] [];
+     WIf [WReturn] []; WUnderlying; WIf [WCall FSetErr; WReturn] []; WReturn];
     (* writeBlock *)
     [WDefer [WSend WFlush]; WIf [WIf [WReturn] []] []; WIf [WReturn] []; WIf [WReturn] []; WIf [WReturn] []; WIf [WReturn] []];
     (* Write *)
